@@ -209,9 +209,8 @@ Example C04_calc2_ex :
      XT (TLeafStop 0); XT (TLeafDtor 0);
      XT (TLeafStart 1 true true 0 0 0 2); XT (TLeafStop 1);
      XT (TLeafStart 6 true true 0 0 0 2); XT (TLeafStop 6);
-     XT (TValCtor SAnyV 0); XT (TLeafDtor 3); XT (TValCtor SCell 0); XT (TValDtor SAnyV 0); XT (TLeafDtor 5);
-     XT (TValCtor SAnyJ 0); XT (TValCtor SAll 0); XRoot ODone 0 3; XRootDtor;
-     XT (TLeafDtor 1); XT (TLeafDtor 6); XT (TValDtor SAnyJ 0); XT (TValDtor SCell 0); XT (TValDtor SAll 0)] /\
+     XT (TLeafDtor 3); XT (TLeafDtor 5); XRoot ODone 0 3; XRootDtor;
+     XT (TLeafDtor 1); XT (TLeafDtor 6)] /\
   (* LeafR 1 requests stop on the let_value_with_stop_source's source: leaf 6 (under it) is stopped at once,
      leaves 3, 4 (outside) are not; leaf 2, started later under the source, starts stopped; when the
      operation then completes with done the outer when_all stops the loser 4 *)
@@ -219,15 +218,14 @@ Example C04_calc2_ex :
     [XT (TLeafStart 0 false true 0 0 0 0); XT (TLeafStart 3 false false 3 0 0 0);
      XT (TLeafStart 4 false true 0 0 0 0); XT (TLeafDtor 0);
      XT (TLeafStart 1 false true 0 0 0 0); XT (TLeafStart 6 false true 0 0 0 0);
-     XT (TReqStop 1 0); XT (TLeafStop 6); XT (TValCtor SAll 9); XT (TLeafDtor 6);
+     XT (TReqStop 1 0); XT (TLeafStop 6); XT (TLeafDtor 6);
      XT (TLeafStart 2 true true 0 0 0 1); XT (TLeafStop 2); XT (TLeafStop 4)] /\
   (* when_any: the first finisher (3) stops the other child *)
   r_tr (exec ex false [EvLeaf 3 (OVal 7) 0; EvLeaf 4 (OVal 7) 0]) =
     [XT (TLeafStart 0 false true 0 0 0 0); XT (TLeafStart 3 false false 3 0 0 0);
-     XT (TLeafStart 4 false true 0 0 0 0); XT (TValCtor SAnyV 7); XT (TLeafDtor 3); XT (TValCtor SCell 7);
+     XT (TLeafStart 4 false true 0 0 0 0); XT (TLeafDtor 3);
      XT (TLeafStop 4); XT (TLeafDtor 4);
-     XT (TLeafStart 5 true true 0 0 0 0); XT (TLeafStop 5); XT (TValDtor SAnyV 7); XT (TLeafDtor 5);
-     XT (TValCtor SAnyJ 7); XT (TValCtor SAll 7)].
+     XT (TLeafStart 5 true true 0 0 0 0); XT (TLeafStop 5); XT (TLeafDtor 5)].
 Proof.
   intros ex. split; [repeat constructor; simpl; intuition discriminate|].
   vm_compute. repeat split.
